@@ -44,11 +44,8 @@ def discover_sets(F):
     return sets
 
 
-def check(rep, F, tier, replay=None):
-    tab = common.load_table("c16.json")
-    sets = discover_sets(F)
-    elems = {v["elem"] for v in sets.values()}
-    rep.floor("set types (Vec<Rc<T>> + membership set)", 7, len(sets))
+def set_push_rules(rep, F, sets, elems):
+    """SET-push / SET-mut / SET-build over the element types in `elems`; returns the number of pushes seen"""
     rep.rule("SET-push", "every Vec<Rc<T>>::push (T an element type of a set type) is dominated by the true edge of a {BTreeSet,HashSet}<Rc<T>>::insert in the same function")
     rep.rule("SET-mut", "no other mutating Vec API on a Vec<Rc<T>>")
     rep.rule("SET-build", "calls returning Vec<Rc<T>> are Vec::new / with_capacity / clone only")
@@ -95,6 +92,15 @@ def check(rep, F, tier, replay=None):
             elif name in MUTATORS:
                 rep.inst("SET-mut")
                 rep.violation("SET-mut", "%s|%s|%s" % (key, name, H.short(T)), "%s applies Vec::%s to an element vector of %s (%s): the vector and its membership set can diverge" % (key, name, H.short(T), facts.loc_str(c.loc, fn)), {"function": fid})
+    return npush
+
+
+def check(rep, F, tier, replay=None):
+    tab = common.load_table("c16.json")
+    sets = discover_sets(F)
+    elems = {v["elem"] for v in sets.values()}
+    rep.floor("set types (Vec<Rc<T>> + membership set)", 7, len(sets))
+    npush = set_push_rules(rep, F, sets, elems)
     rep.floor("guarded pushes into set element vectors", 12, npush)
     # LIT: struct literals only in own constructors
     rep.rule("SET-lit", "struct literals of a set type occur only in its own inherent constructors (new / new_from_prepared_fields)")
